@@ -926,11 +926,13 @@ def make_data_dict_vcf(vcf_filename, popinfo_filename, subsample=None, filter=Tr
                     continue
                 if pop not in subsample:
                     continue
-                gt = sample.split(':')[gtindex]
+                fields = sample.split(':')
+                gt = fields[gtindex]
 
-                try:
-                    dp = sample.split(':')[dpindex]
-                except TypeError:
+                # Trailing fields of a sample may be dropped (VCF 4.x), e.g. "./." for FORMAT GT:AD:DP
+                if dpindex is not None and len(fields) > dpindex:
+                    dp = fields[dpindex]
+                else:
                     dp = None
                 
                 if pop not in subsample_dict:
